@@ -40,6 +40,9 @@ Notation "'let*' x ':=' r 'in' k" := (bind r (fun x => k))
   (at level 200, x pattern, r at level 100, k at level 200).
 Notation "r '>>' k" := (bind r (fun _ => k)) (at level 100, k at level 200, right associativity).
 
+(* bf^e: growAfterSize / shrinkBelowSize *)
+Fixpoint pow_N (b : N) (e : nat) : N := match e with O => 1%N | S e' => (b * pow_N b e')%N end.
+
 (** * trees *)
 Inductive lk (A : Type) :=
 | LNil                            (* nil *)
